@@ -150,6 +150,7 @@ func VerifyFunc(L *Loaded, fn *ssa.Function, con *FuncContract, opt runOpts) (re
 
 func (e *Enc) runBody(fn *ssa.Function, con *FuncContract, ur *UnitResult) {
 	tb := e.tb
+	e.curCon = con
 	st := State{reach: tb.True(), heap: map[string]*Term{}}
 	args := e.setupParams(fn)
 	entry := st.clone()
@@ -290,6 +291,10 @@ func (e *Enc) frameAllow(fr *Frame, con *FuncContract) (map[string][]allowedLoc,
 			}
 			continue
 		}
+		if err == nil && sv.greg != nil {
+			allow[sv.greg.name] = append(allow[sv.greg.name], allowedLoc{ref: sv.gidx})
+			continue
+		}
 		if err != nil || sv.addr == nil {
 			return nil, fmt.Errorf("cannot evaluate `%s`: %v", cl.text, err)
 		}
@@ -331,6 +336,15 @@ func (e *Enc) frameFormula(fr *Frame, allow map[string][]allowedLoc, st *State, 
 		if a.anyRef {
 			return tb.True()
 		}
+	}
+	if strings.HasPrefix(n, "G:") {
+		is, _ := arrayElemSort(r.sort)
+		gi := tb.BoundVar("gi", is)
+		var ex []*Term
+		for _, a := range allow[n] {
+			ex = append(ex, tb.Eq(gi, a.ref))
+		}
+		return tb.Forall([]*Term{gi}, tb.Imp(tb.Not(tb.Or(ex...)), tb.Eq(tb.Select(after, gi), tb.Select(before, gi))))
 	}
 	ref := tb.BoundVar("fr", RefSort)
 	if r.elem {
